@@ -15,6 +15,11 @@ func runC13(c *Ctx) {
 		"iteration on table.Reader (with and without block cache + buffer pool) are compared with the model run on the same bytes; small tables get " +
 		"random walks (First/Last/Seek/Next/Prev, past both ends) on the real table.blockIter of the index block and of data blocks, whole and sliced with a util.Range, are compared with the byte-level blockIter model; " +
 		"every (or sampled) single-byte alteration inside checksummed blocks: answers must be original pairs or corruption, never a panic; " +
+		"the reader repairs of wp64 (tables up to 6 kB): every byte of the metaindex block and its trailer altered — the table must answer like the intact one unfiltered, never with corruption; " +
+		"footer handles rewritten under an intact magic (just beyond the file, 2^20 … 2^64-1, in-file edge values, overflowing varints in each position) — no panic, no allocation beyond 1 MiB + 8 × file size " +
+		"(runtime.MemStats.TotalAlloc around open + first lookup; lengths tried in ascending order, and lengths in [2^20, 2^48) no longer once a reader was seen to allocate a claimed length), original answer or corruption; " +
+		"short reads (footer offsets beyond the end, file cut inside the metaindex / index block, data region cut with the footer moved along) through a buffer pool that served a table with the same " +
+		"layout and other values before — answers independent of the pool's history, never the other table's data; all of these files also go to the model; " +
 		"Go-only oracles: round trip, backward iteration, monotone offsets, cached = uncached. Non-trivial = multi-block or filtered table; distinct by case seed."
 	sz := wpc13.DefaultSizes()
 	sz.Tables = c.Scale(200, 4000)
@@ -35,4 +40,11 @@ func runC13(c *Ctx) {
 	c.Res.CountN("ops", "blockiter-walks", st.BiterWalks)
 	c.Res.CountN("ops", "blockiter-walks-sliced", st.BiterSliced)
 	c.Res.CountN("ops", "blockiter-moves", st.BiterMoves)
+	c.Res.CountN("reader repairs (files)", "metaindex-byte-altered", st.Repairs.MetaDamaged)
+	c.Res.CountN("reader repairs (files)", "footer-rewritten", st.Repairs.FooterVariants)
+	c.Res.CountN("reader repairs (files)", "short-read-through-warm-pool", st.Repairs.ShortReadFiles)
+	c.Res.CountN("reader repairs (files)", "footer-lengths-not-tried-after-an-allocation-was-seen", st.Repairs.StaleSkipped)
+	c.Res.CountN("ops", "reader-repair-checks", st.Repairs.RepairOps)
+	c.Res.CountN("ops", "allocation-probes", st.Repairs.AllocProbes)
+	c.Res.CountN("reader repairs (files)", "largest-allocation-in-a-probe-KiB", st.Repairs.MaxProbeAlloc>>10)
 }
